@@ -204,8 +204,50 @@ def _seqdiff(_):
     return st
 
 
+def _wide(_):
+    """a result table with 30 features (more than a console preview shows), negative medians, both tldr settings"""
+    import pandas as pd
+    from outrank.task_summary import outrank_task_result_summary
+    st = Stats()
+    d = scratch_dir('c18w')
+    try:
+        for heuristic in ('MI-numba-randomized', 'correlation-Pearson'):
+            for tldr in ('True', False):
+                rows = []
+                for i in range(30):
+                    rows.append((f'feat{i:02d}', 'label', round(-0.9 + 0.07 * i, 3)))
+                    rows.append(('label', f'feat{i:02d}', round(-0.9 + 0.07 * i + (0.02 if i % 2 else 0), 3)))
+                with open(os.path.join(d, 'pairwise_ranks.tsv'), 'w') as f:
+                    f.write('FeatureA\tFeatureB\tScore\n' + ''.join(f'{a}\t{b}\t{s}\n' for a, b, s in rows))
+                args = harness.make_args(output_folder=d, heuristic=heuristic, interaction_order=1, label_column='label', tldr=tldr)
+                with contextlib.redirect_stdout(io.StringIO()):
+                    ok, r = safe(outrank_task_result_summary, args)
+                st.count('evaluations')
+                st.count('nontrivial')
+                st.count('wide_cases')
+                case = {'kind': 'wide', 'heuristic': heuristic, 'tldr': str(tldr)}
+                if not ok:
+                    st.violation(case, f'summary raised {r}', {'kind': 'exception', 'heuristic': heuristic})
+                    continue
+                singles = pd.read_csv(os.path.join(d, 'feature_singles.tsv'), sep='\t', keep_default_na=False)
+                med = {f'feat{i:02d}': statistics.median([round(-0.9 + 0.07 * i, 3), round(-0.9 + 0.07 * i + (0.02 if i % 2 else 0), 3)]) for i in range(30)}
+                if sorted(singles['Feature']) != sorted(med):
+                    st.violation(case, f'feature_singles.tsv has {len(singles)} rows, {len(med)} features were scored against the label', {'kind': 'rows', 'heuristic': heuristic, 'wide': True})
+                    continue
+                vals = dict(zip(singles['Feature'], [tofloat(v) for v in singles.iloc[:, 1]]))
+                lo, hi = min(med.values()), max(med.values())
+                exp = {k: ((v - lo) / (hi - lo) if 'MI' in heuristic else v) for k, v in med.items()}
+                bad = [k for k in exp if abs(vals[k] - exp[k]) > 1e-9]
+                if bad:
+                    st.violation(case, f'{bad[0]}: {vals[bad[0]]} expected {exp[bad[0]]}', {'kind': 'value', 'heuristic': heuristic, 'wide': True})
+    finally:
+        rm_scratch(d)
+    return st
+
+
 def run(ctx):
     ctx.stats.merge(_seqdiff(None))
+    ctx.stats.merge(_wide(None))
     jobs = []
     kmax = 4 if ctx.thorough else 3
     for k in range(1, kmax + 1):
@@ -222,6 +264,8 @@ def run(ctx):
 
 
 def eval_case(case):
+    if case.get('kind') == 'wide':
+        return [v['what'] for v in _wide(None).violations if v['case']['heuristic'] == case['heuristic'] and v['case']['tldr'] == case['tldr']]
     if case.get('kind') == 'seqdiff':
         st = _seqdiff(None)
         return [v['what'] for v in st.violations]
